@@ -436,6 +436,7 @@ type FuncContract struct {
 	HitSites map[string]bool // call sites counted by hits("name#k")
 	AtCalls  []*Clause // assertions after the k-th call of a callee: Tag2 = "callee#k"
 	Assumes  []*Clause // loop-head assumptions (listed in evidence, not proved)
+	Steps    []*Clause // per-iteration relations, checked at every back edge; prev(e) is e at the head of the iteration
 	Extra    map[string][]string
 	File     string
 	Line     int
@@ -454,6 +455,7 @@ type FrozenSpec struct {
 
 type ContractSet struct {
 	Frozen     []*FrozenSpec
+	FrozenFields []string
 	Guards     []*GuardSpec
 	LockExempt map[string]bool // function keys
 	LockEntry  map[string]bool // entry points called by the dispatcher without the mutex
@@ -471,7 +473,7 @@ var hitsRe = regexp.MustCompile(`hits\("([^"]+)"\)`)
 var clauseKeywords = map[string]bool{
 	"spec": true, "rec": true, "axiom": true, "lemma": true, "func": true, "props": true,
 	"requires": true, "ensures": true, "loop": true, "assigns": true, "pure": true, "sweep": true,
-	"trusted": true, "end": true, "at": true, "functional": true, "typeinv": true, "unchecked": true, "default-nonnil": true, "guarded": true, "lock-exempt": true, "lock-entry": true, "frozen": true, "recovers": true, "panics": true, "measure": true, "use": true, "opt": true,
+	"trusted": true, "end": true, "at": true, "functional": true, "typeinv": true, "unchecked": true, "default-nonnil": true, "guarded": true, "lock-exempt": true, "lock-entry": true, "frozen": true, "frozen-field": true, "recovers": true, "panics": true, "measure": true, "use": true, "opt": true,
 }
 
 func parseParams(s string) ([]SpecParam, error) {
@@ -650,6 +652,14 @@ func (cs *ContractSet) ParseContractText(pkgPath, file, text string) error {
 				}
 			}
 			cs.Frozen = append(cs.Frozen, fz)
+		case "frozen-field":
+			// frozen-field <pkg path suffix>.<Type>.<field>: written only while the object is being built
+			// (stores into an allocation of the same function), checked by a scan of every store
+			fs := strings.Fields(rc.rest)
+			if len(fs) != 1 || strings.Count(fs[0], ".") < 2 {
+				return errf(fmt.Errorf("frozen-field: want '<pkg>.<Type>.<field>'"))
+			}
+			cs.FrozenFields = append(cs.FrozenFields, fs[0])
 		case "lock-entry":
 			if cs.LockEntry == nil {
 				cs.LockEntry = map[string]bool{}
@@ -768,6 +778,12 @@ func (cs *ContractSet) ParseContractText(pkgPath, file, text string) error {
 				}
 			case "at":
 				// at call CALLEE#k assert [tags] expr
+				for _, m := range hitsRe.FindAllStringSubmatch(rc.rest, -1) {
+					if cur.HitSites == nil {
+						cur.HitSites = map[string]bool{}
+					}
+					cur.HitSites[m[1]] = true
+				}
 				fs := strings.Fields(rc.rest)
 				if len(fs) < 4 || fs[0] != "call" {
 					return errf(fmt.Errorf("bad at clause (want: at call NAME#k assert expr)"))
@@ -825,6 +841,8 @@ func (cs *ContractSet) ParseContractText(pkgPath, file, text string) error {
 					cur.Decs = append(cur.Decs, cl)
 				case "assume":
 					cur.Assumes = append(cur.Assumes, cl)
+				case "step":
+					cur.Steps = append(cur.Steps, cl)
 				default:
 					return errf(fmt.Errorf("bad loop clause kind %q", kind))
 				}
